@@ -48,6 +48,8 @@ enum Fx {
     None,
     NonCrit,
     Crit,
+    /// several future-extensions elements (context tag 6), in order; true = critical
+    Many(Vec<bool>),
 }
 
 #[derive(Clone, Debug, PartialEq)]
@@ -95,10 +97,11 @@ impl ACert {
             Some(v) if v.is_empty() => ".".to_string(),
             Some(v) => v.iter().map(|x| x.to_string()).collect::<Vec<_>>().join(","),
         };
-        let fx = match self.fx {
-            Fx::None => "-",
-            Fx::NonCrit => "n",
-            Fx::Crit => "c",
+        let fx: String = match &self.fx {
+            Fx::None => "-".into(),
+            Fx::NonCrit => "n".into(),
+            Fx::Crit => "c".into(),
+            Fx::Many(v) => v.iter().map(|c| if *c { 'c' } else { 'n' }).collect(),
         };
         format!(
             "{}/{}/{}/{}/{}/{}/{}/{}/{}/{}/{}/{}",
@@ -161,7 +164,8 @@ impl ACert {
         let fx = match f[11] {
             "n" => Fx::NonCrit,
             "c" => Fx::Crit,
-            _ => Fx::None,
+            "-" => Fx::None,
+            x => Fx::Many(x.chars().map(|c| c == 'c').collect()),
         };
         ACert {
             subject: dn(f[0]),
@@ -344,10 +348,15 @@ fn encode(c: &ACert, pk: &[u8; 65], sig: Option<&[u8; 64]>) -> Vec<u8> {
     if let Some(a) = &c.akid {
         t.bytes(Some(5), &key_id(*a));
     }
-    match c.fx {
+    match &c.fx {
         Fx::None => {}
         Fx::NonCrit => t.bytes(Some(6), FX_NON_CRITICAL),
         Fx::Crit => t.bytes(Some(6), FX_CRITICAL),
+        Fx::Many(v) => {
+            for crit in v {
+                t.bytes(Some(6), if *crit { FX_CRITICAL } else { FX_NON_CRITICAL });
+            }
+        }
     }
     t.end();
     if let Some(s) = sig {
@@ -837,6 +846,14 @@ const WRAPPER_SENSITIVE: &[&str] = &[
     "leaf_icac_attr_before_node_attr",
     "bc_pathlen_0",
     "root_replaced_by_other_root_same_names",
+    "eku_server_auth_twice",
+    "eku_client_auth_twice",
+    "eku_server_auth_twice_plus_other",
+    "eku_client_auth_thrice",
+    "critical_extension_in_second_element",
+    "critical_extension_in_third_element",
+    "critical_extension_first_of_two_elements",
+    "two_noncritical_extension_elements",
 ];
 
 /// Single-respect mutations; `i` = certificate position. Return false when not applicable.
@@ -925,6 +942,14 @@ const MUTATIONS: &[Mutation] = &[
         // purposes outside the six known ones are dropped from the DER form: harmless, must not panic
         match &mut s.certs[i].eku { Some(e) => { e.extend_from_slice(&[7, 0, 200]); true } None => false }
     }),
+    ("eku_server_auth_twice", |s, i, _| { if i != 0 { return false; } s.certs[0].eku = Some(vec![1, 1]); true }),
+    ("eku_client_auth_twice", |s, i, _| { if i != 0 { return false; } s.certs[0].eku = Some(vec![2, 2]); true }),
+    ("eku_server_auth_twice_plus_other", |s, i, _| { if i != 0 { return false; } s.certs[0].eku = Some(vec![1, 1, 5]); true }),
+    ("eku_client_auth_thrice", |s, i, _| { if i != 0 { return false; } s.certs[0].eku = Some(vec![2, 2, 2]); true }),
+    ("critical_extension_in_second_element", |s, i, _| { s.certs[i].fx = Fx::Many(vec![false, true]); true }),
+    ("critical_extension_in_third_element", |s, i, _| { s.certs[i].fx = Fx::Many(vec![false, false, true]); true }),
+    ("critical_extension_first_of_two_elements", |s, i, _| { s.certs[i].fx = Fx::Many(vec![true, false]); true }),
+    ("two_noncritical_extension_elements", |s, i, _| { s.certs[i].fx = Fx::Many(vec![false, false]); true }),
     ("critical_unknown_extension", |s, i, _| { s.certs[i].fx = Fx::Crit; true }),
     ("noncritical_unknown_extension", |s, i, _| { s.certs[i].fx = Fx::NonCrit; true }),
     ("leaf_node_attr_becomes_icac_attr", |s, i, _| {
